@@ -359,12 +359,16 @@ class Reader:
         _, q = self.readint(q, "fiber.maxstack")
         ctx = {"frame": frame, "stackstart": sstart, "stacktop": stop}
         self.fields[-1].ctx = ctx
+        flags_field = self.fields[-5]
         stack = frame
         top = sstart - FRAME_SIZE
         while stack > 0:
             fflags, q = self.readint(q, "frame.flags")
             prev, q = self.readint(q, "frame.prevframe", {"stack": stack})
             _, q = self.readint(q, "frame.pc")
+            if flags_field.role == "fiber.flags" and "toppc" not in flags_field.ctx:
+                pf = self.fields[-1]
+                flags_field.ctx = dict(flags_field.ctx, toppc=(pf.off, pf.size, pf.val))
             _, q = self.one(q, "frame.func")
             if fflags & (1 << 31) or fflags < 0:
                 # the frame's own environment: remember where it sits and what geometry the frame has, for the
